@@ -439,7 +439,7 @@ func dkgRun(g *group, i int, ord []int, ch *fw.Chooser) (*group_create.VerifNode
 				msg: fmt.Sprintf("member %d: handleSharePiece return codes %v for arrival order %v (want 0..0,1)", i, rcs, ord)}
 		}
 	}
-	if got := nd.SignSeckey().GetBigInt(); got.Cmp(g.skWant[i]) != 0 {
+	if got := nd.SignSeckey().GetBigInt(); new(big.Int).Mod(got, order).Cmp(g.skWant[i]) != 0 {
 		return nd, result{bad: true, sig: sigp + "sign-key-not-sum-of-shares" + tail, obs: obs,
 			msg: fmt.Sprintf("member %d arrival %v: sign key %x, sum of received shares %x", i, ord, got, g.skWant[i])}
 	}
@@ -676,19 +676,35 @@ func boot() {
 }
 
 type tierParams struct {
-	ns            []int
-	seeds         int
-	supBound      int  // deviation bound for the superset path (k-pick, 2 map iterations)
-	supRev        bool // supersets also inserted in reverse order
-	genBound      int
-	dkgMapMembers bool
+	ns       []int
+	seeds    int
+	supBound int  // deviation bound for the superset path (k-pick, 2 map iterations)
+	supRev   bool // supersets also inserted in reverse order
+	genBound func(n int) int
+	msgsFor  func(n, seed int) []int // message indices used for a group
 }
 
 func params(thorough bool) tierParams {
 	if thorough {
-		return tierParams{ns: []int{3, 4, 5, 6, 7, 8, 9, 10}, seeds: 2, supBound: 2, supRev: true, genBound: 1}
+		return tierParams{ns: []int{3, 4, 5, 6, 7, 8, 9, 10}, seeds: 2, supBound: 2, supRev: true,
+			genBound: func(int) int { return 1 },
+			msgsFor:  func(int, int) []int { return []int{0, 1} }}
 	}
-	return tierParams{ns: []int{3, 4, 5, 6, 10}, seeds: 2, supBound: 1, supRev: false, genBound: 1}
+	// quick: the largest group uses one message per seed set and pins the collectors' map
+	// iteration to the insertion order (their arrival orders are still all enumerated)
+	return tierParams{ns: []int{3, 4, 5, 6, 10}, seeds: 2, supBound: 1, supRev: false,
+		genBound: func(n int) int {
+			if n >= 8 {
+				return 0
+			}
+			return 1
+		},
+		msgsFor: func(n, seed int) []int {
+			if n >= 8 {
+				return []int{seed % 2}
+			}
+			return []int{0, 1}
+		}}
 }
 
 var idkinds = []string{"hash", "small", "big"}
@@ -753,7 +769,7 @@ func run(c *fw.Ctx) {
 					}
 				}
 
-				for mi := range g.msgs {
+				for _, mi := range tp.msgsFor(n, seed) {
 					// --- pairing checks: every share under the member's public share, the result under the group key
 					for i := 0; i < n; i++ {
 						if !mine() || expired() {
@@ -812,7 +828,7 @@ func run(c *fw.Ctx) {
 							for _, p := range orders {
 								ks := g.kase(which, mi)
 								ks.Ord = apply(sub, p)
-								explore(c, g, ks, tp.genBound)
+								explore(c, g, ks, tp.genBound(n))
 							}
 						}
 					}
